@@ -305,8 +305,8 @@ impl<'p> CoroutinePool<'p> {
         if self.try_take_task_result(task_id).is_some() {
             return;
         }
+        // a pending cancel request stays: the task must still be skipped when its turn comes
         _ = self.no_waits.insert(task_id);
-        _ = CANCEL_TASKS.remove(&task_id);
     }
 
     /// Use the given `task_id` to obtain task results, and if no results are found,
